@@ -207,7 +207,25 @@ class TransformerRun(object):
         # may answer at all is R-CACHE's question (sa/rules/memo.py)
         from sa.rules import memo as _memo
         mm = _memo.memo_of(self.f.node)
-        if mm is not None and (st is mm[2] or any(st is x for x in mm[3])):
+        if mm is not None and mm[4] == 'miss-fill':
+            if st is mm[2]:
+                self.block(st.body)          # the computation, as on a miss
+                return
+            if any(st is x for x in mm[3]):
+                v = st.value
+                if isinstance(v, ast.Tuple) and len(v.elts) == 2:
+                    try:
+                        self._memo_pair = (self.num_of(v.elts[0])[0], self.num_of(v.elts[1])[0])
+                    except ValueError as ex:
+                        raise AnalysisError('%s: cannot interpret the memoised pair (%s)' % (self.f.where, ex))
+                    return
+                raise AnalysisError('%s: the memo stores `%s`, not a (begin, end) pair' % (self.f.where, ast.unparse(v)[:40]))
+            if st is mm[5]:
+                self.ret = getattr(self, '_memo_pair', None)
+                if self.ret is None:
+                    raise AnalysisError('%s: memo read before it is filled' % self.f.where)
+                return
+        elif mm is not None and (st is mm[2] or any(st is x for x in mm[3])):
             return
         if mm is not None and isinstance(st, ast.Assign) and len(st.targets) == 1 and isinstance(st.targets[0], ast.Name) and st.targets[0].id == mm[1]:
             return      # the key of the memo
